@@ -1,7 +1,7 @@
 (* C02 -- calls take effect in issue order (per-handle FIFO, real-time precedence).  Statements only. *)
 From Coq Require Import List Arith.
 Import ListNotations.
-From IT Require Import Sdpl.IR Sdpl.Elab Sdpl.Wf Runtime.Actor Runtime.Lists Runtime.ActorInv Runtime.InvDefs Runtime.Combined.
+From IT Require Import Sdpl.IR Sdpl.Elab Sdpl.Wf Runtime.Actor Runtime.Lists Runtime.ActorInv Runtime.InvDefs Runtime.Combined Runtime.InvClient.
 
 Section C02.
 Context {A V : Type} (sem : nat -> A -> list V -> option (A * V)) (sem_slf : nat -> A -> list V -> V) (dv : V).
@@ -33,8 +33,15 @@ Proof.
   unfold wf_C02 in W. apply andb_prop in W. destruct W as [_ B].
   pose proof (no_loss_reachable sem sem_slf dv (elab m) a0 progs sched B Al) as L. unfold s in H. rewrite L in H. destruct H.
 Qed.
+(* per-handle FIFO: the calls one client issues one after another are executed in issue order (a client starts its next
+   call only after the previous handle method returned: client_seq_reachable) *)
+Theorem C02_per_client_fifo : forall (m : model), wf_C02 m = true ->
+  forall a0 progs sched, let s := run (elab m) a0 progs sched in
+  forall t k1 k2, k1 < k2 -> In (t, k1) (applied_ids s) -> In (t, k2) (applied_ids s) -> precedes (t, k1) (t, k2) (applied_ids s).
+Proof. intros m _ a0 progs sched. exact (per_client_fifo sem sem_slf dv (elab m) a0 progs sched). Qed.
 End C02.
 
 Print Assumptions C02_realtime.
 Print Assumptions C02_fifo.
 Print Assumptions C02_returned_was_sent.
+Print Assumptions C02_per_client_fifo.
